@@ -7,6 +7,18 @@ HERE = os.path.dirname(os.path.dirname(os.path.abspath(__file__)))
 BASELINE = "cd /repo && /venv/bin/python -m pytest -ra -q -p no:cacheprovider --timeout=900 --continue-on-collection-errors"
 
 CHECKS = {
+    'C09': dict(
+        text='Lean: the top-level shape of minify() (stages, conditions, order) regenerated from the source equals the modelled pipeline, '
+             'in which the taint block clears both renaming flags and the name-introducing stages (literal hoisting, exception-bracket '
+             'removal) are gated on not module.tainted (decide on generated tables); when every binding is pinned the NameAssigner model '
+             'renames nothing and introduces no name (theorem). Tie: generated pipeline table + the assigner correspondence of C03. '
+             'Taint detection itself (which programs set module.tainted) is decided by an oracle on the real code: trigger x position x '
+             'program enumeration, the output tree must be identical to the input tree; a control group with shadowed trigger names '
+             'must still be renamed.',
+        note='PARTIAL: resolve_names/bind_names taint detection is not modelled in Lean. Trusted: extract_pipeline (scrapes minify()), '
+             'the oracle in tools/props/c09.py.',
+        technique='Lean 4 proof (decide on the generated pipeline table + pinned-bindings theorem) + real-code identity oracle over trigger/position enumeration',
+        ref='§6 C09'),
     'C03': dict(
         text='Lean theorems on a model of NameAssigner (reservation scopes, cost model, generator table, the must-rename rule): for every '
              'set of bindings, two bindings whose reservation scopes share a namespace never end up with the same name when one of them '
